@@ -267,7 +267,7 @@ func (e *Exec) deliver(tx model.Tx) (TxObs, []Disc, bool) {
 	// decode or a message failed its stateless validation) although the keys, the sequence and - on a copy of
 	// the model - every message are in order: the stateless validation refuses a legitimate operation
 	statelessReject := false
-	if !obs.AnteOK && !r.OK() && r.GasWanted == 0 && r.GasUsed == 0 && !wrongSigner && !tx.BadSig && tx.SeqDelta == 0 &&
+	if !obs.AnteOK && !r.OK() && r.GasWanted == 0 && !wrongSigner && !tx.BadSig && tx.SeqDelta == 0 &&
 		(tx.Signed == nil || txJSON(model.Tx{Msgs: tx.Signed}) == txJSON(model.Tx{Msgs: tx.Msgs})) {
 		if f := m.Clone().ExecMsgs(e.env(), tx); f == nil {
 			statelessReject = true
